@@ -231,7 +231,7 @@ def run(ctx):
                        'of every encoded frame',
                        'str.isdigit()/int() on non-ASCII characters: supplied per run as a table'])
     # the codec model's constants (packet types, digit limits) are the literals of packet.py as it is now
-    C.audit_extra(ctx, 'Glue', ['packet_types_eq', 'packet_names_consistent', 'attDigitLimit_eq',
+    C.audit_extra(ctx, 'GlueCodec', ['packet_types_eq', 'packet_names_consistent', 'attDigitLimit_eq',
                                 'idDigitLimit_eq', 'header_guards', 'scanners_accept'])
     rng = ctx.rng
     n_enc = ctx.scale(1500, 30000)
